@@ -233,14 +233,15 @@ def run(ctx):
         if kind == "bytes":
             return b"abc"
         if kind == "BytesIO":
-            return Sym("BYTESIO", truthy=True, pytype=IOObj, tags=("BytesIO", "IOBase"))
+            return Sym("BYTESIO", truthy=True, pytype=IOObj, tags=("BytesIO", "IOBase"), attrs={"read": lambda i, a, k, n: Sym("READ_BYTES", truthy=True, pytype=bytes)})
         if kind == "file":
             return Sym("FILE", truthy=True, pytype=IOObj, tags=("IOBase", "BufferedReader"), attrs={"read": lambda i, a, k, n: Sym("READ_BYTES", truthy=True, pytype=bytes)})
         if kind == "text":
             return "| survey |\n"
     created = []
     def h_bytesio(i, a, k, n):
-        s = Sym(f"BytesIO({a[0]!r})", truthy=True, pytype=IOObj, tags=("BytesIO", "IOBase"), attrs={"src": a[0]})
+        s = Sym(f"BytesIO({a[0]!r})", truthy=True, pytype=IOObj, tags=("BytesIO", "IOBase"),
+                attrs={"src": a[0], "read": lambda i2, a2, k2, n2: Sym("READ_BYTES", truthy=True, pytype=bytes)})
         created.append(s)
         return s
     path_obj = lambda exists: Sym("PATH", truthy=True, pytype=IOObj, attrs={"is_file": lambda i, a, k, n: exists, "stem": "stemname", "suffix": ".xlsx",
